@@ -5,7 +5,7 @@ exactness at every pixel, grid_level membership, coordinates, default position, 
 out-of-domain positions, Mandoline instance reuse."""
 import os, random
 import numpy as np
-from .. import common, gen, refparse, workload, pools, poison, slicemodel
+from .. import common, gen, refparse, workload, pools, poison, slicemodel, endurance
 
 ID = "C07"
 LEVEL = "exploration"
@@ -22,7 +22,7 @@ ASSUMPTIONS = ["pixels whose two bracketing samples exist only on different leve
                "a unique value by the statement: judged for determinism, poison, affine exactness "
                "and grid_level only", "positions within the tool's np.isclose snapping tolerance of "
                "a cell centre (but not on it) are skipped", "pool shim M1 with shuffled schedules"]
-REQUIRED_OBS = {"slices": 300, "pixels_decided": 20000, "class:boxface": 20, "class:gap-": 20,
+REQUIRED_OBS = {"endurance_calls": 100, "slices": 300, "pixels_decided": 20000, "class:boxface": 20, "class:gap-": 20,
                 "class:gap+": 20, "class:domainface": 10, "class:centre": 20, "out_of_domain_refused": 10,
                 "default_position": 5, "parallel": 50, "reuse": 5, "cli_runs": 30}
 CHAIN = {"quick": 2, "thorough": 20}
@@ -57,7 +57,8 @@ def cases(tier, seed):
     for n in ((seed % 3,) if tier == "quick" else (0, 1, 2)):
         cs.append({"scale": "unequal", "gen": dict(seed=seed * 11 + 7170 + n, names=NAMES, payload="affine"),
                    "sel_seed": seed * 47 + 7170 + n, "per_class": 1, "normals": [n], "fmt": {}})
-    return workload.add_reach_store(cs)
+    # M10: the same operation repeated in one process under a low open-file limit (vlib/endurance.py)
+    return list(workload.add_reach_store(cs)) + [endurance.case("slice3d", tier, seed)]
 
 
 def setup():
@@ -136,6 +137,8 @@ def judge(m, vol, n, pos, L, fl, o1, o2, ref):
 
 
 def run_case(case, work, rec):
+    if case.get("kind") == "endurance":
+        return endurance.run_case(case, work, rec)
     from amr_kitchen.mandoline import Mandoline
     rng = random.Random(case["sel_seed"])
     m, path = workload.build(case, work)
